@@ -31,6 +31,32 @@ LOG_READERS = {'state::State::rnext', 'state::State::rnext::{closure#0}', 'state
                '<state::State as core::default::Default>::default'}
 
 
+_V = [None]
+
+
+def _roots_of(fx, fn):
+    """the named functions fn is used by: fn itself when a rule names it or nobody calls it, otherwise the roots of its callers"""
+    from .. import inline
+    if _V[0] is None or _V[0].fx is not fx:
+        _V[0] = inline.View(fx)
+    V = _V[0]
+    roots, seen, todo = set(), set(), [fn]
+    while todo:
+        g = todo.pop()
+        if g in seen:
+            continue
+        seen.add(g)
+        base = g.split('::{closure')[0]
+        callers = set(fx.callers().get(g, ())) | (set(fx.callers().get(base, ())) if base != g else set())
+        if base != g:
+            callers.add(base)
+        if V.transparent(base) and callers:
+            todo += [c for c in callers if c != g]
+        else:
+            roots.add(base)
+    return roots
+
+
 def regions(f):
     """for each branch on is_recording(): (branch bb, true-region, false-region) of exclusively-dependent blocks"""
     out = []
@@ -246,7 +272,8 @@ def run(rep, facts, tier):
                 which = [m for m in ('Eval', 'Compile', 'MetaEval') if any(p.endswith('::' + m) or p == m for p in pm)]
                 if 'Eval' in which or 'Compile' in which:
                     n_cmp += 1
-                    ok = fn in ('state::State::context_close', 'state::State::context_open')
+                    # ... or a private helper that only these two use (the 'leave the context' tail pulled out of context_close)
+                    ok = _roots_of(fx, fn) <= {'state::State::context_close', 'state::State::context_open'}
                     rep.add('C15.R2', 'C15.R2:mode-compare:%s:%s' % (fn, '|'.join(which)), ok,
                             'the single place where Eval differs from Compile (run on close)' if ok else
                             '%s behaves differently in Eval and Compile mode: eval is no longer compile + run' % short(fn), fn, t.get('at'))
